@@ -545,9 +545,33 @@ def main(argv):
         p = write_replay(pid, rtier, seed, "input", new_viol,
                          "implementation differs from std/the documented oracle on these inputs")
         violations.append((p, ""))
+    xs = None
+    if po.get("extracted_broken") and not replay and po.get("extracted", {}).get("changed_files"):
+        # the regenerated definitions differ from the committed ones and no longer satisfy their theorems:
+        # search regenerated-vs-committed in Lean, replay what is found on the implementation (vlib/xsearch.py)
+        try:
+            from vlib import xsearch
+            xs = xsearch.search(pid, po["extracted"]["changed_files"], seed)
+        except Exception as e:
+            xs = {"note": f"search failed: {type(e).__name__}: {e}", "failing_inputs": []}
+        extra["extracted_search"] = {k: xs.get(k) for k in ("groups", "lean_counterexamples", "note")}
+        extra["extracted_search"]["replayed_on_implementation"] = len(xs.get("replayed", []))
+        extra["extracted_search"]["failing_inputs"] = len(xs.get("failing_inputs", []))
+        if xs.get("failing_inputs"):
+            p = write_replay(pid, rtier, seed, "extracted-input", xs["failing_inputs"],
+                             "found by comparing the regenerated definition with the committed one in Lean and replaying the "
+                             "input on the real code: konst's public function and the std counterpart disagree on these inputs")
+            violations.append((p, ""))
     if obligation_replay:
         # a broken proof obligation is reported with the failing input when the search found one
-        found_input = bool(new_viol) or bool(crashes)
+        if xs is not None:
+            try:
+                rp = json.load(open(os.path.join(ROOT, obligation_replay)))
+                rp["search"] = xs
+                json.dump(rp, open(os.path.join(ROOT, obligation_replay), "w"), indent=1)
+            except Exception:
+                pass
+        found_input = bool(new_viol) or bool(crashes) or bool(xs and xs.get("failing_inputs"))
         violations.insert(0, (obligation_replay, "" if found_input else " no-failing-input-found"))
     corr = [r for r in cmp_.impl_ne_model]
     if corr and not new_viol:
